@@ -66,6 +66,16 @@ fn roundtrip(c: &Circuit, path: &Path, rng: &mut Rng, st: &mut St) -> Result<Opt
     let imp = catch(|| Circuit::bristol_to_garble(path)).map_err(|p| format!("importer panicked on an exported file: {p}"))?;
     let imp = imp.map_err(|e| format!("importer rejects an exported file: {e:?}"))?;
     st.imported += 1;
+    // the top-level entry point gives the same circuit
+    match catch(|| garble_lang::compile_bristol_to_circuit(path)) {
+        Err(p) => return Err(format!("compile_bristol_to_circuit panicked on an exported file: {p}")),
+        Ok(Err(e)) => return Err(format!("compile_bristol_to_circuit rejects an exported file that Circuit::bristol_to_garble imports: {}", format!("{e:?}").chars().take(200).collect::<String>())),
+        Ok(Ok(top)) => {
+            if top.input_gates != imp.input_gates || top.output_gates != imp.output_gates || top.gates.len() != imp.gates.len() {
+                return Err("compile_bristol_to_circuit and Circuit::bristol_to_garble import different circuits".into());
+            }
+        }
+    }
     match imp.validate() {
         Ok(()) => {}
         // a program returning () has no non-panic output bits: the imported circuit then has no
